@@ -1,15 +1,18 @@
 (* C13 — HTTP messages are parsed identically however the stream is segmented.
    Only statements here; proofs live in Proofs/HttpFramingP.v.  The model (Model/HttpFraming.v) is the
-   model of circuits/web/parsers/http.py + the gating in web/http.py and protocols/http.py with
-   fixes/C13_*.patch applied.  kind_resp = false: server side (requests); true: client side (responses).
-   parse_fl / parse_hd are arbitrary (oracles for first-line and header-block content parsing). *)
+   model of circuits/web/parsers/http.py + the gating in web/http.py and protocols/http.py (used by
+   web/client.py) with fixes/C13_*.patch applied.
+   kind_resp = false: server side (requests); true: client side (responses).
+   parse_fl / parse_hd are arbitrary functions (oracles for first-line and header-block content parsing),
+   so every theorem holds whatever those parsers accept.  Reads are non-empty ([nonempty]). *)
 From Coq Require Import List NArith ZArith Bool.
 From Circ Require Import Model.HttpFraming Proofs.HttpFramingP.
 Import ListNotations.
 Open Scope N_scope.
 
-(* the split law of HttpParser.execute: while the message is still incomplete after the read [a]
-   (and the parser has not failed), reading [a] then [b] equals reading [a ++ b] *)
+(* the split law of HttpParser.execute, for EVERY parser state s and all byte strings: while the message is
+   still incomplete after the read [a] (and the parser has not failed), reading [a] then [b] equals reading
+   [a ++ b] *)
 Theorem C13_split_law : forall kind_resp parse_fl parse_hd s a b,
   a <> [] -> b <> [] ->
   splittable (feed kind_resp parse_fl parse_hd s a) ->
@@ -19,7 +22,8 @@ Proof. exact feed_split. Qed.
 Print Assumptions C13_split_law.
 
 (* every segmentation into non-empty reads in which no proper prefix of the reads already completes the
-   message gives the state that one-piece delivery gives (any number of cuts, byte-at-a-time included) *)
+   message gives the state that one-piece delivery gives (any number of cuts, byte-at-a-time included);
+   covers also bodies that never complete (responses read until close) *)
 Theorem C13_segmentation : forall kind_resp parse_fl parse_hd cs s,
   cs <> [] -> Forall nonempty cs ->
   (forall p q, cs = p ++ q -> p <> [] -> q <> [] ->
@@ -27,3 +31,60 @@ Theorem C13_segmentation : forall kind_resp parse_fl parse_hd cs s,
   run kind_resp parse_fl parse_hd s cs = feed kind_resp parse_fl parse_hd s (concat cs).
 Proof. exact run_segmentation. Qed.
 Print Assumptions C13_segmentation.
+
+(* well-formed messages (first line L, header block H with >= 1 field, body B sent with Content-Length,
+   chunked — any chunk-size lines with extensions, optional trailers — or, for requests, absent):
+   EVERY segmentation of the bytes of the message ends in the same completed state, carrying L, H and the
+   decoded body *)
+Theorem C13_message : forall kind_resp parse_fl parse_hd L H i204 clen chunked,
+  wf_head parse_fl parse_hd L H i204 clen chunked ->
+  forall B body, wf_body kind_resp clen chunked B body ->
+  forall cs, Forall nonempty cs -> concat cs = msg_bytes L H B ->
+  run kind_resp parse_fl parse_hd (PFirst []) cs = PDone L H body.
+Proof. exact message_segmentation. Qed.
+Print Assumptions C13_message.
+
+(* server (HTTP._on_read): keep-alive sequence of well-formed requests, each cut in any way (no read spans
+   two requests): exactly one request event per request, with that request's first line, headers and body;
+   the per-connection parser is released after each *)
+Theorem C13_server_keepalive : forall parse_fl parse_hd ms css,
+  Forall (wf_message false parse_fl parse_hd) ms ->
+  Forall2 (fun m cs => Forall nonempty cs /\ concat cs = message_bytes m) ms css ->
+  conn_run false parse_fl parse_hd srv_emit (PFirst []) (concat css) = (PFirst [], map message_event ms).
+Proof. exact server_keepalive. Qed.
+Print Assumptions C13_server_keepalive.
+
+(* client (protocols.http.HTTP._on_client_read, used by web.client.Client): same for responses with
+   Content-Length or chunked bodies *)
+Theorem C13_client_keepalive : forall parse_fl parse_hd ms css,
+  Forall (wf_message true parse_fl parse_hd) ms ->
+  Forall2 (fun m cs => Forall nonempty cs /\ concat cs = message_bytes m) ms css ->
+  conn_run true parse_fl parse_hd cli_emit (PFirst []) (concat css) = (PFirst [], map message_event ms).
+Proof. exact client_keepalive. Qed.
+Print Assumptions C13_client_keepalive.
+
+(* The full statement "for every byte string, every two segmentations agree" is FALSE for the client side:
+   a response without header fields (known finding C13-headerless-response).  The theorems above exclude it
+   through [wf_head] (H is followed by CRLFCRLF and does not start with CRLF) resp. through [splittable]. *)
+Theorem C13_headerless_response_refuted :
+  exists parse_fl parse_hd cs1 cs2,
+    Forall nonempty cs1 /\ Forall nonempty cs2 /\ concat cs1 = concat cs2 /\
+    run true parse_fl parse_hd (PFirst []) cs1 <> run true parse_fl parse_hd (PFirst []) cs2.
+Proof. exact headerless_response_refuted. Qed.
+Print Assumptions C13_headerless_response_refuted.
+
+(* ---- non-vacuity (data and computations in Proofs/HttpFramingP.v): a concrete well-formed chunked request
+   "POST / HTTP/1.1 | Host: x | TE: c | 3;x CRLF a CR LF CRLF 01 CRLF b CRLF 0 CRLF T:v CRLF CRLF" ---- *)
+Example C13_ex_wf_head : wf_head ex_fl ex_hd ex_L ex_H false None true.
+Proof. exact ex_wf_head. Qed.
+Example C13_ex_wf_body : wf_body false None true ex_B [97;13;10;98].
+Proof. exact ex_wf_body. Qed.
+(* byte-at-a-time delivery of that request, computed *)
+Example C13_ex_bytewise :
+  run false ex_fl ex_hd (PFirst []) (map (fun b => [b]) (msg_bytes ex_L ex_H ex_B)) = PDone ex_L ex_H [97;13;10;98].
+Proof. vm_compute. reflexivity. Qed.
+(* a Content-Length response cut between CR and LF of the status line and inside the body *)
+Example C13_ex_cl :
+  run true (fun _ => Some false) (fun _ => Some (Some 3%Z, false)) (PFirst [])
+      [[72;13]; [10;65;58;49;13;10;13;10;120]; [121;122]] = PDone [72] [65;58;49] [120;121;122].
+Proof. vm_compute. reflexivity. Qed.
